@@ -405,6 +405,19 @@ func checkCodec(c *core.Check, which string) {
 		c.HarnessError("no schemas from TLC")
 		return
 	}
+	// annotation keywords on the properties of every fourth object schema: readOnly / writeOnly (the generated type has
+	// one codec for both directions: the dialect knows no direction-specific requiredness), deprecated, example, title
+	for i := range schemas {
+		if schemas[i].K != "object" || i%4 != 1 {
+			continue
+		}
+		for pi := range schemas[i].Props {
+			if schemas[i].Props[pi].Schema.K == "ref" {
+				continue
+			}
+			schemas[i].Props[pi].Schema.Attrs = []map[string]any{{"readOnly": true}, {"writeOnly": true}, {"deprecated": true, "title": "T", "example": "x"}}[(i/4+pi)%3]
+		}
+	}
 	rng := rand.New(rand.NewSource(c.Seed))
 	if !thorough {
 		// quick: every scalar/array/allOf/oneOf/nested schema, a seeded third of the two-property objects
